@@ -50,7 +50,7 @@ def main():
             row = results.get(sid, {})
             for pid in targets:
                 t0 = time.time()
-                c = sh(f"./check {pid} --tier {a.tier}", cwd=HERE, timeout=7200)
+                c = sh(f"CV_EVIDENCE_DIR=/tmp/cv_seeded_evidence ./check {pid} --tier {a.tier}", cwd=HERE, timeout=7200)
                 viol = [l for l in c.stdout.split("\n") if l.startswith("VIOLATION")]
                 row[pid] = {
                     "exit": c.returncode,
